@@ -592,3 +592,163 @@ Section InplaceMore.
       + split; reflexivity.
   Qed.
 End InplaceMore.
+
+(* ------------------------------------------------------------------ *)
+(** * update(_inplace=True, a=v, b=w, ...) as a whole *)
+
+(* a keyword the theorem covers: a managed scalar attribute with a pool preparer,
+   given a proper scalar (or MISSING: skipped) *)
+Definition kw_ok (k : cls) (p : aid * val) : bool :=
+  match lookup_attr k (fst p) with
+  | Some sp => (ty_depth (a_ty sp) <? FUEL) && negb (ty_is_collection (a_ty sp)) &&
+               (vscalar (snd p) || is_missing (snd p)) &&
+               match a_prepare sp with Some f => scalar_fn f | None => true end
+  | None => false
+  end.
+
+Definition akw (kws : list (aid * val)) : list (aid * aval) := map (fun p => (fst p, abs0 (snd p))) kws.
+
+(* the specification's step for one keyword (step 5 of the documented value procedure) *)
+Definition spec_kw_step (ct : ctable) (h0 : list obj) (x : aval) (p : aid * aval) : sres aval :=
+  if in_names (fst p) [] || a_is_missing (snd p) then SOk x
+  else sexec ct h0 SFUEL (SSetAttr x (fst p) (snd p)).
+
+Lemma assign_all_cons rec l a0 v0 t s :
+  assign_all rec l ((a0, v0) :: t) s =
+  if is_missing v0 then assign_all rec l t s else
+  match rec (KSetAttr l a0 v0 false false) s with
+  | (Ok _, s1) => assign_all rec l t s1
+  | (Err e, s1) => (Err e, s1)
+  end.
+Proof.
+  unfold assign_all. cbn [iterM snd fst]. destruct (is_missing v0); [reflexivity|].
+  unfold bind. destruct (rec (KSetAttr l a0 v0 false false) s) as [[u|e] s1]; reflexivity.
+Qed.
+
+Lemma setattr_unfold ct rec l a c d k sp v force s1 :
+  nth_error (heap s1) l = Some (OInst c d) -> lookup_cls ct c = Some k -> lookup_attr k a = Some sp ->
+  setattr_ ct rec l a v force false s1 = assign_gen ct l a sp rec force v s1.
+Proof.
+  intros Hl Hc Ha. unfold setattr_, assign_gen.
+  rewrite (bind_ok _ _ _ _ _ (read_inst_at l s1 c d Hl)). cbn [fst snd].
+  rewrite (bind_ok _ _ _ _ _ (cls_of_at ct c s1 k Hc)). rewrite Ha. reflexivity.
+Qed.
+
+Lemma fail_at_upd s l o : fail_at (upd s l o) = fail_at s.
+Proof. reflexivity. Qed.
+
+Section UpdateTop.
+  Variable ct : ctable.
+  Variable h0 : list obj.
+  Variables (l : loc) (c : cid) (k : cls).
+  Hypothesis Hc : lookup_cls ct c = Some k.
+  Hypothesis Hfz : c_frozen k = false.
+  Hypothesis Hni : no_inval k.
+
+  Lemma spec_kw_step_scalar a sp d s v :
+    nth_error (heap s) l = Some (OInst c d) -> lookup_attr k a = Some sp ->
+    ty_is_collection (a_ty sp) = false ->
+    match a_prepare sp with Some f => scalar_fn f = true | None => True end ->
+    vscalar v = true ->
+    spec_kw_step ct h0 (absv (heap s) (VRef l)) (a, abs0 v) = spec_core ct a c d sp s v.
+  Proof.
+    intros Hl Ha Hnc Hp Hv. unfold spec_kw_step. cbn [fst snd in_names existsb orb].
+    rewrite (not_amissing_scalar v Hv). rewrite SFUEL_S, sexec_S. cbn [sbody].
+    rewrite (absv_recv l c d s Hl). unfold set_attr, cls_for. rewrite Hc. cbn [sbind]. rewrite Ha.
+    exact (prepared_store_core ct h0 a c d k sp s Hc Ha Hni Hnc Hp _ v Hv).
+  Qed.
+
+  Lemma assign_all_refines f0 : forall kws d s,
+    nth_error (heap s) l = Some (OInst c d) -> NoDup (map fst d) ->
+    aok (absv (heap s) (VRef l)) = true -> fail_at s = None ->
+    forallb (kw_ok k) kws = true ->
+    match assign_all (exec ct (S (S f0))) l kws s with
+    | (Ok _, s') =>
+        sfold (spec_kw_step ct h0) (akw kws) (absv (heap s) (VRef l)) = SOk (absv (heap s') (VRef l)) /\
+        (forall i, i <> l -> nth_error (heap s') i = nth_error (heap s) i) /\
+        length (heap s') = length (heap s)
+    | (Err e, s') =>
+        sfold (spec_kw_step ct h0) (akw kws) (absv (heap s) (VRef l)) = SErr e /\
+        (forall i, i <> l -> nth_error (heap s') i = nth_error (heap s) i) /\
+        length (heap s') = length (heap s)
+    end.
+  Proof.
+    induction kws as [|[a0 v0] kws IH]; intros d s Hl Hd Hok Hfa Hkws.
+    - unfold assign_all. cbn [iterM]. unfold ret. cbn [akw map sfold]. auto.
+    - cbn [forallb] in Hkws. apply andb_true_iff in Hkws. destruct Hkws as [Hk0 Hkws].
+      unfold kw_ok in Hk0. cbn [fst snd] in Hk0.
+      destruct (lookup_attr k a0) as [sp|] eqn:Ha0; [|discriminate].
+      apply andb_true_iff in Hk0. destruct Hk0 as [Hk0 Hp0].
+      apply andb_true_iff in Hk0. destruct Hk0 as [Hk0 Hv0].
+      apply andb_true_iff in Hk0. destruct Hk0 as [Hty Hnc].
+      apply Nat.ltb_lt in Hty. apply negb_true_iff in Hnc.
+      assert (Hp : match a_prepare sp with Some f => scalar_fn f = true | None => True end)
+        by (destruct (a_prepare sp); auto).
+      rewrite assign_all_cons. cbn [akw map fst snd sfold].
+      destruct (is_missing v0) eqn:Em.
+      + (* MISSING: skipped on both sides *)
+        destruct v0; try discriminate. cbn [abs0]. unfold spec_kw_step at 1. cbn [fst snd a_is_missing].
+        rewrite orb_true_r. cbn [sbind]. exact (IH d s Hl Hd Hok Hfa Hkws).
+      + rewrite ?Em in Hv0. rewrite orb_false_r in Hv0.
+        rewrite exec_S_set. rewrite (setattr_unfold ct _ l a0 c d k sp v0 false s Hl Hc Ha0).
+        rewrite (spec_kw_step_scalar a0 sp d s v0 Hl Ha0 Hnc Hp Hv0).
+        assert (Hpass : negb (false || initializing d) && c_frozen k = false) by (rewrite Hfz; apply andb_false_r).
+        pose proof (assign_scalar_closed ct l a0 c d k sp s Hl Hc Ha0 Hd Hok Hni Hty Hnc Hp f0 false v0 s
+                      Hpass eq_refl Hfa Hv0) as H.
+        destruct (assign_gen ct l a0 sp (exec ct (S f0)) false v0 s) as [[r|e] s1].
+        * destruct H as [_ [v' [s2 [Hh2 [Hf2 [Hv' [-> [Hs Habs]]]]]]]].
+          rewrite Hs. cbn [sbind]. rewrite <- Habs.
+          destruct (guard_after_store l a0 c d s Hl Hd Hok s2 v' Hh2 Hv') as [Hl' [Hd' [Hok' [Hoth Hlen]]]].
+          pose proof (IH _ _ Hl' Hd' Hok' (eq_trans (fail_at_upd s2 l _) Hf2) Hkws) as IH'.
+          destruct (assign_all (exec ct (S (S f0))) l kws (upd s2 l (OInst c (assoc_set a0 v' d)))) as [[u|e] s'].
+          -- destruct IH' as [E1 [E2 E3]]. split; [exact E1|]. split; [|congruence].
+             intros i Hi. rewrite E2 by exact Hi. now apply Hoth.
+          -- destruct IH' as [E1 [E2 E3]]. split; [exact E1|]. split; [|congruence].
+             intros i Hi. rewrite E2 by exact Hi. now apply Hoth.
+        * destruct H as [Hs [Hh _]]. rewrite Hs. cbn [sbind]. split; [reflexivity|]. split; [|now rewrite Hh].
+          intros i _. now rewrite Hh.
+  Qed.
+
+  Lemma spec_update_top_kws flds p ps :
+    spec_update_top ct h0 (AInst c flds) AMissing (Some (p :: ps)) =
+    (v5 <~ sfold (spec_kw_step ct h0) (p :: ps) (AInst c flds) ;; SOk v5).
+  Proof.
+    unfold spec_update_top, spec_value. cbn [a_not_given negb sbind].
+    change (fun (x : aval) (p1 : aid * aval) =>
+              if in_names (fst p1) [] || a_is_missing (snd p1) then SOk x
+              else sexec ct h0 SFUEL (SSetAttr x (fst p1) (snd p1))) with (spec_kw_step ct h0).
+    destruct (sfold (spec_kw_step ct h0) (p :: ps) (AInst c flds)); reflexivity.
+  Qed.
+
+  (* update(_inplace=True, **kws): final state and the first error class agree with the
+     specification's fold over the keywords; only the receiver's cell is written *)
+  Theorem update_top_inplace_refines d s p0 ps :
+    nth_error (heap s) l = Some (OInst c d) -> NoDup (map fst d) ->
+    aok (absv (heap s) (VRef l)) = true -> fail_at s = None ->
+    forallb (kw_ok k) (p0 :: ps) = true ->
+    let h := mkh [] true true VMissing false None (Some (p0 :: ps)) [] None in
+    let ah := mkah [] true true AMissing false None (Some (akw (p0 :: ps))) [] None in
+    match run_helper ct l HUpdateTop h s with
+    | (Ok r, s') => r = VRef l /\
+                    spec_helper ct h0 (absv (heap s) (VRef l)) SUpdateTop ah = SOk (absv (heap s') (VRef l)) /\
+                    (forall i, i <> l -> nth_error (heap s') i = nth_error (heap s) i) /\
+                    length (heap s') = length (heap s)
+    | (Err e, s') => spec_helper ct h0 (absv (heap s) (VRef l)) SUpdateTop ah = SErr e /\
+                     (forall i, i <> l -> nth_error (heap s') i = nth_error (heap s) i) /\
+                     length (heap s') = length (heap s)
+    end.
+  Proof.
+    intros Hl Hd Hok Hfa Hkws h ah.
+    assert (Hspec : spec_helper ct h0 (absv (heap s) (VRef l)) SUpdateTop ah =
+                    (v5 <~ sfold (spec_kw_step ct h0) (akw (p0 :: ps)) (absv (heap s) (VRef l)) ;; SOk v5)).
+    { rewrite (absv_recv l c d s Hl). unfold spec_helper, ah. cbn [ah_if negb mutates_in_place ah_inplace andb].
+      unfold frozen_class. rewrite Hc, Hfz. unfold spec_unfrozen, apos0. cbn [ah_pos nth ah_kw akw map].
+      apply spec_update_top_kws. }
+    rewrite Hspec. clear Hspec.
+    unfold h. rewrite (update_inplace_is_iterated_setattr ct l p0 ps s c d k Hl Hc).
+    pose proof (assign_all_refines 37 (p0 :: ps) d s Hl Hd Hok Hfa Hkws) as H.
+    unfold bind. destruct (assign_all (exec ct 39) l (p0 :: ps) s) as [[u|e] s'].
+    - destruct H as [E1 [E2 E3]]. rewrite E1. cbn [sbind]. unfold ret. auto.
+    - destruct H as [E1 [E2 E3]]. rewrite E1. cbn [sbind]. auto.
+  Qed.
+End UpdateTop.
